@@ -1,6 +1,7 @@
 //! C16 – reported track parameters are true closest-approach parameters.
 use crate::core::*;
 use alpha_g_physics::reconstruction::verif_hooks as vh;
+use alpha_g_physics::reconstruction::Track;
 use alpha_g_physics::SpacePoint;
 use serde_json::json;
 use std::f64::consts::PI;
@@ -252,5 +253,49 @@ fn run(ctx: &mut Ctx) {
             }
         }
     });
+    // ---- hook-assisted: clusters of chosen shapes (curlers that stay inside the drift volume with a gap in their hits,
+    // helices with special pitches, physical tracks) fitted by the library; the end-point parameters of the fitted track
+    let n = ctx.tier.pick(600, 20_000);
+    ctx.cases("fitted-shapes", n, |ctx, i, rng| {
+        let fam = [19usize, 19, 0, 12][(i % 4) as usize];
+        let np = 13 + rng.usize(if i % 5 == 0 { 200 } else { 60 });
+        let pts = crate::geom::family(rng, fam, np);
+        if pts.len() < 13 {
+            return;
+        }
+        ctx.eval();
+        let v = pts.clone();
+        let tr = match guard(move || Track::try_from(vh::cluster_from_points(v))) {
+            Ok(Ok(t)) => t,
+            Ok(Err(_)) => {
+                ctx.count("fitted shapes: no track");
+                return;
+            }
+            Err(p) => {
+                ctx.panic_violation("Track::try_from(Cluster)", &p, json!({"family": crate::geom::FAMILIES[fam]}));
+                return;
+            }
+        };
+        let p = vh::helix_params(&tr);
+        for (name, t) in [("t_inner", tr.t_inner()), ("t_outer", tr.t_outer())] {
+            if t.is_nan() || !(-PI..=PI).contains(&t) {
+                ctx.violation("closest-approach parameter outside [-pi, pi] or NaN", format!("{} of a fitted track ({}): {} (helix {:?})", name, crate::geom::FAMILIES[fam], t, p), json!({"helix": p, "points_r_phi_z_bits": super::c14::describe_points(&pts)}));
+                return;
+            }
+        }
+        ctx.count(&format!("fitted shapes: end-point parameters in range ({})", crate::geom::FAMILIES[fam]));
+        // the minimiser comparison only inside the property's helix ranges and when the end points are unambiguous
+        let mut rs: Vec<u64> = pts.iter().map(|q| crate::geom::rpz(q).0.to_bits()).collect();
+        rs.sort();
+        rs.dedup();
+        if rs.len() == pts.len() && (0.03..=5.0).contains(&p[3]) && p[0].abs() <= 3.0 && p[1].abs() <= 3.0 && p[2].abs() <= 3.0 {
+            let first = *pts.iter().min_by(|a, b| a.r.partial_cmp(&b.r).unwrap()).unwrap();
+            let last = *pts.iter().max_by(|a, b| a.r.partial_cmp(&b.r).unwrap()).unwrap();
+            check_one(ctx, p, first, tr.t_inner(), "t_inner of a fitted track");
+            check_one(ctx, p, last, tr.t_outer(), "t_outer of a fitted track");
+            ctx.count("fitted tracks checked (t_inner, t_outer)");
+        }
+    });
     ctx.require("fitted tracks checked (t_inner, t_outer)", 20);
+    ctx.require("fitted shapes: end-point parameters in range (curler inside the drift volume with a gap in its hits)", 20);
 }
